@@ -142,7 +142,7 @@ TypeOK == /\ rpos \in 0..Len(wire)
 
 (* liveness: everything queued is eventually written and reassembled (no source starves in the rotation) *)
 Drained == q = <<>> /\ rpos = Len(wire)
-EventuallyDrained == <>[](nextFid > MaxFrames => Drained) \/ []<>(nextFid <= MaxFrames)
+EventuallyDrained == (nextFid > MaxFrames /\ (WithSetup => setup # "none")) ~> Drained
 AllDelivered == [](Drained => \A j \in 1..Len(enq) : \E i \in 1..Len(out) : out[i][1].fid = enq[j][2])
 
 (* reachability witnesses (expected to be VIOLATED: used by a separate config to show that interleaving really happens) *)
